@@ -295,6 +295,46 @@ def fam_index_wrapper(case):
 FAMILIES["index_wrapper"] = fam_index_wrapper
 
 
+def fam_multi_validate(case):
+    """MultiAnnotatorPoolQueryStrategy._validate_data on concrete arguments: batch size = min(base-class batch size, #candidate pairs), a boolean
+    availability matrix given with index candidates comes back with its rows in the order of the sorted candidates"""
+    from skactiveml.base import PoolQueryStrategy
+    y = _labels_from_tokens(case["y"], case["missing"])
+    n, na = y.shape
+    X = np.arange(2.0 * n).reshape(n, 2)
+    cand = None if case["cand"] is None else np.array(case["cand"], dtype=int)
+    ann = None if case["ann"] is None else np.array(case["ann"], dtype=int if case["amode"] == "idx" else bool)
+    if cand is not None and (len(set(cand.tolist())) != len(cand) or cand.min() < 0 or cand.max() >= n):
+        return []
+    if case["amode"] == "idx" and (ann.min() < 0 or ann.max() >= na):
+        return []
+    bs = int(case["bs"])
+    o = _mk_multi()
+    base = PoolQueryStrategy._validate_data(_mk_multi(), X, y, None if cand is None else cand.copy(), bs, True, True, None)
+    bs_s = int(base[3])
+    X2, y2, c2, a2, bs2, ru2 = o._validate_data(X, y, None if cand is None else cand.copy(), None if ann is None else ann.copy(), bs, True, True)
+    nrows = n if cand is None else len(c2)
+    if case["amode"] == "none":
+        pairs = int(np.isnan(y).sum()) if cand is None else nrows * na
+    elif case["amode"] == "idx":
+        pairs = nrows * len(set(ann.tolist()))
+    else:
+        pairs = int(np.asarray(a2).sum())
+    out = []
+    if int(bs2) != min(bs_s, pairs):
+        out.append({"sig": case["sig"], "detail": f"batch size {bs2}, expected min({bs_s}, {pairs} candidate pairs) (candidates {case['cand']}, annotators {case['ann']}, batch_size {bs})"})
+    if case["amode"] == "matrix":
+        a2 = np.asarray(a2)
+        want = ann if cand is None else np.array([ann[cand.tolist().index(int(v))] for v in np.asarray(c2).tolist()])
+        if a2.dtype != bool or a2.shape != want.shape or not np.array_equal(a2, want):
+            out.append({"sig": case["sig"], "detail": f"availability matrix returned as {a2.astype(int).tolist()} for validated candidates {np.asarray(c2).tolist() if c2 is not None else None}, "
+                                                      f"given {ann.astype(int).tolist()} for candidates {case['cand']}"})
+    return out
+
+
+FAMILIES["multi_validate"] = fam_multi_validate
+
+
 def run_case(prop, case):
     with np.errstate(all="ignore"):
         try:
